@@ -3,7 +3,7 @@
     No proofs in this file. *)
 From Coq Require Import String List Bool.
 Import ListNotations.
-Require Import Nib.C09.Model.
+Require Import Nib.C09.Model Nib.C09.ModelBuf.
 Local Open Scope string_scope.
 
 (** (directory, function, reads, writes, every access guarded against check-state contexts) *)
@@ -146,9 +146,18 @@ Definition reference_kinds : list string := ["ptr"; "map"; "slice"; "chan"; "syn
 Definition field_needs_entry (f : string * string * string * string * string * bool) : bool :=
   let '(_, _, _, _, kind, assigned) := f in existsb (String.eqb kind) reference_kinds || assigned.
 
+(** A field matches its reviewed entry by (directory, struct, name, type).  Renaming a field is harmless when nothing else
+    changes: a field of an external NAMED type (a keeper, a codec, a store key — not a pointer / map / slice / sync object)
+    that is never assigned outside constructors also matches an [Immutable] entry of the same struct with the same type
+    under another name. *)
+Definition immutable_entry (c : sclass) : bool := match c with Immutable => true | _ => false end.
+
 Definition field_known (f : string * string * string * string * string * bool) : bool :=
-  let '(d, st, fl, ty, _, _) := f in
-  negb (field_needs_entry f) || existsb (fun e => str4_eqb (d, st, fl, ty) (fst e)) field_table.
+  let '(d, st, fl, ty, kind, assigned) := f in
+  negb (field_needs_entry f) || existsb (fun e => str4_eqb (d, st, fl, ty) (fst e)) field_table ||
+  (String.eqb kind "named" && negb assigned &&
+   existsb (fun e => let '(d', st', _, ty') := fst e in
+                     String.eqb d d' && String.eqb st st' && String.eqb ty ty' && immutable_entry (snd e)) field_table).
 
 Definition var_needs_entry (v : string * string * string * string * bool) : bool :=
   let '(_, _, _, kind, assigned) := v in String.eqb kind "sync" || assigned.
@@ -186,3 +195,54 @@ Definition alias_table : list (string * string * string) := [
 
 Definition inplace_known (s : string * string * string) : bool := existsb (str3_eqb s) inplace_table.
 Definition alias_known (s : string * string * string) : bool := existsb (str3_eqb s) alias_table.
+
+(** ** Shared byte buffers (ModelBuf.v): writes through slice / index expressions whose base is a package-level variable
+    or a field of a singleton — generated [buffer_sites] (directory, function, kind, base, slot) — and how the appended-to
+    slots are materialised — generated [slice_origins] (directory, function, left-hand side, callee, slot). *)
+Definition bsite : Type := (string * string * string * string * string)%type.
+Definition bsite_kind (s : bsite) : string := let '(_, _, k, _, _) := s in k.
+Definition bsite_base (s : bsite) : string := let '(_, _, _, b, _) := s in b.
+Definition bsite_slot (s : bsite) : string := let '(_, _, _, _, sl) := s in sl.
+
+(** Reviewed appended-to slots (field / variable names of shared slices).  Only [append] can be justified, and only by
+    the exact capacity of its base (with cap = len every append of a non-empty argument list reallocates, with an empty one
+    nothing is written) — a property of how the SLOT is materialised, not of the function that appends; an index write or
+    a [copy] into a shared base always writes into the shared array and is never justified.
+    - Bytecode: embeds.SmartContract_*.Bytecode; deployERC20ForBankCoin builds init code = byte code ++ ABI-packed
+      (name, symbol, decimals);
+    - KeyPrefixBzAccState: x/evm store-key prefix; PrefixAccStateEthAddr = prefix ++ address. *)
+Definition buffer_slots : list string := ["Bytecode"; "KeyPrefixBzAccState"].
+
+Definition buffer_site_known (s : bsite) : bool :=
+  String.eqb (bsite_kind s) "append" && existsb (String.eqb (bsite_slot s)) buffer_slots.
+
+(** Allocators that return a slice with cap = len (reviewed; the run-time side is the `slices` case of the harness, which
+    observes cap - len of every such slice on every run):
+    - gethcommon.FromHex / Hex2Bytes -> encoding/hex.DecodeString: make([]byte, DecodedLen(len(s))), returns dst[:n] with
+      n = len(dst) for well-formed input (Go >= 1.20; older versions decoded in place);
+    - gethcommon.CopyBytes, two-argument make: exact by definition (make/3 names a capacity);
+    - KeyPrefixAccState.Prefix: collections.Namespace.Prefix returns the one-element literal []byte{uint8(n)}.
+    NOT exact: bytes.Clone / slices.Clone / append([]byte{}, x...) (size-class rounding), in-place decoding. *)
+Definition exact_allocators : list string := [
+  "github.com/ethereum/go-ethereum/common.FromHex";
+  "github.com/ethereum/go-ethereum/common.Hex2Bytes";
+  "github.com/ethereum/go-ethereum/common.CopyBytes";
+  "encoding/hex.DecodeString";
+  "make/2";
+  "expr:KeyPrefixAccState.Prefix"
+].
+
+Definition origin_callee (o : bsite) : string := let '(_, _, _, c, _) := o in c.
+Definition origin_exact (o : bsite) : bool := existsb (String.eqb (origin_callee o)) exact_allocators.
+Definition site_has_origin (origins : list bsite) (s : bsite) : bool :=
+  existsb (fun o => String.eqb (bsite_slot o) (bsite_slot s)) origins.
+
+(** every write with a shared base is a plain [append], every appended-to shared slice has a known origin and every origin
+    is an exact allocator => [Exact]; otherwise (an index write, a [copy], an append to a re-sliced base, an unknown or
+    inexact origin) the faithful model of the code is [Spare]: requests can write into an array block execution reads *)
+Definition alloc_of (sites origins : list bsite) : alloc :=
+  if forallb (fun s => String.eqb (bsite_kind s) "append") sites &&
+     forallb (site_has_origin origins) sites && forallb origin_exact origins then Exact else Spare.
+
+Definition appended_bases (sites : list bsite) : list string :=
+  map bsite_base (filter (fun s => String.eqb (bsite_kind s) "append") sites).
